@@ -21,13 +21,13 @@ import (
 // This clause is tied by observation only (impl vs spec); the framing theorems are about Record.
 
 type c02dcase struct {
-	seed    uint64
-	v11     bool
-	segK    int
-	nreq    int
-	payload [][]byte
-	chunks  [][]int
-	hasCR   bool
+	seed     uint64
+	v11      bool
+	segK     int
+	nreq     int
+	payload  [][]byte
+	chunks   [][]int
+	hasCR    bool
 	hashLine bool
 }
 
@@ -138,15 +138,29 @@ func runC02driver(c *ctx) {
 			defer wg.Done()
 			defer func() { <-sem }()
 			cs := cases[i]
-			s := sim.NewNCServer(true, cs.v11)
+			// every third case runs over a pty-style echoing transport that hands the echo of the
+			// rpc, the reply and the echo of the final return to the client in ONE piece and then
+			// stays silent (sim.C08Server, coalesced echo); the others over a non-echoing one
+			coalesced := cs.seed%3 == 0
+			var s *sim.NCServer
+			var cx *sim.C08Server
+			if coalesced {
+				cx = sim.NewC08Server(cs.v11)
+				for k := range cs.payload {
+					cx.Plans = append(cx.Plans, sim.C08Plan{Payload: cs.payload[k], Chunks: cs.chunks[k]})
+				}
+				s = cx.NCServer
+			} else {
+				s = sim.NewNCServer(true, cs.v11)
+				s.Behave = func(k int, req sim.NCRequest) sim.NCReply {
+					if k >= len(cs.payload) {
+						return sim.NCReply{Never: true}
+					}
+					return sim.NCReply{Payload: cs.payload[k], Chunks: cs.chunks[k]}
+				}
+			}
 			if cs.segK > 0 {
 				s.Seg = sim.SegFixed(cs.segK)
-			}
-			s.Behave = func(k int, req sim.NCRequest) sim.NCReply {
-				if k >= len(cs.payload) {
-					return sim.NCReply{Never: true}
-				}
-				return sim.NCReply{Payload: cs.payload[k], Chunks: cs.chunks[k]}
 			}
 			s.Start()
 			d, err := netconf.NewDriver("h", options.WithCustomTransport(s), options.WithAuthBypass(),
@@ -158,6 +172,13 @@ func runC02driver(c *ctx) {
 			if err := d.Open(); err != nil {
 				outs[i].openErr = errClass(err)
 				return
+			}
+			if coalesced {
+				for w := 0; w < 2000 && !cx.Quiet(); w++ {
+					time.Sleep(100 * time.Microsecond)
+				}
+				cx.EchoMode = sim.C08EchoCoalesced
+				cx.StartLog() // the echo starts with the first rpc (the hello exchange is not echoed)
 			}
 			for k := 0; k < cs.nreq; k++ {
 				r, err := d.GetConfig("running")
@@ -188,6 +209,9 @@ func runC02driver(c *ctx) {
 		}
 		res.Count("driver:version:" + ver)
 		res.Count(fmt.Sprintf("driver:seg:%d", cs.segK))
+		if cs.seed%3 == 0 {
+			res.Count("driver:transport:echo-coalesced-with-reply")
+		}
 		res.Case("d"+caseLine, true)
 		if o.openErr != "" {
 			res.Fail("oracle", caseLine, "NETCONF open failed: "+o.openErr, "driver:open-error")
